@@ -43,17 +43,18 @@ def tiger_println_stack(vm):
 
 
 def tiger_div_stack(vm):
-    left = vm.load_memory(vm.registers[14] + 3)
-    right = vm.load_memory(vm.registers[14] + 4)
+    # The operands are signed integers; memory holds their unsigned representation.
+    left = from_u16(vm.load_memory(vm.registers[14] + 3))
+    right = from_u16(vm.load_memory(vm.registers[14] + 4))
     result = left // right if right != 0 else 0
-    vm.store_memory(vm.registers[14] + 3, result)
+    vm.store_memory(vm.registers[14] + 3, to_u16(result))
 
 
 def tiger_mod_stack(vm):
-    left = vm.load_memory(vm.registers[14] + 3)
-    right = vm.load_memory(vm.registers[14] + 4)
+    left = from_u16(vm.load_memory(vm.registers[14] + 3))
+    right = from_u16(vm.load_memory(vm.registers[14] + 4))
     result = left % right if right != 0 else 0
-    vm.store_memory(vm.registers[14] + 3, result)
+    vm.store_memory(vm.registers[14] + 3, to_u16(result))
 
 
 def tiger_getchar_ord_stack(vm):
@@ -595,15 +596,15 @@ def tiger_println_reg(vm):
 
 
 def tiger_div_reg(vm):
-    left = vm.registers[1]
-    right = vm.registers[2]
-    vm.registers[1] = left // right if right != 0 else 0
+    left = from_u16(vm.registers[1])
+    right = from_u16(vm.registers[2])
+    vm.registers[1] = to_u16(left // right) if right != 0 else 0
 
 
 def tiger_mod_reg(vm):
-    left = vm.registers[1]
-    right = vm.registers[2]
-    vm.registers[1] = left % right if right != 0 else 0
+    left = from_u16(vm.registers[1])
+    right = from_u16(vm.registers[2])
+    vm.registers[1] = to_u16(left % right) if right != 0 else 0
 
 
 def tiger_getchar_ord_reg(vm):
